@@ -32,7 +32,9 @@ CHECKS = {
         rule=("one case = one generated plan: scenario (forward / back projection, objective function, lazy geometry tables, "
               "shared matrix cache, normalisation, single-scatter simulation, list-mode objective function, Array reductions, back projection with another thread count than at set_up), geometry, matrix settings, thread count 2..16 and a seeded schedule "
               "(PCT(d<=3) / random walk / sync-only / round-robin) executed by the simulator's own OpenMP runtime with every "
-              "instrumented memory access a yield point; compared with the same plan on one thread.  Non-trivial = at least one "
+              "instrumented memory access a yield point; compared with the same plan on one thread.  The lazy-table scenario re-arms the "
+              "ring-difference tables in 60% of the runs; about one run in a hundred is the scenario env (a fresh process with a drawn "
+              "OMP_NUM_THREADS makes its first set_num_threads()).  Non-trivial = at least one "
               "context switch inside a parallel region; distinct = distinct (scenario, decision-trace hash)."),
         components=dict(real=REAL_COMMON + ["all STIR code inside the parallel regions, compiled with -fopenmp and access instrumentation"],
                         stub=["libgomp: replaced by simgomp (teams, dynamic chunks, criticals, locks, single, barriers decided by the seeded scheduler)",
@@ -210,8 +212,10 @@ CHECKS = {
               "chained normalisation, zero_seg0_end_planes, max_segment_num_to_process, subset sensitivities on/off, legal number of "
               "subsets, prior on/off, sensitivities computed at set-up / read from files written by an earlier object / forced to 1) and "
               "2..16 operations on ONE objective-function object: value, gradient, gradient+sensitivity, sensitivity, Hessian x vector, "
-              "approximate Hessian x vector (subset / full / penalised), set_up again, set_num_subsets + set_up, and model changes on the same "
-              "object (other normalisation, additive term on/off, zero_seg0_end_planes, max_segment_num_to_process) + set_up.  Every answer is compared "
+              "approximate Hessian x vector (subset / full / penalised value, gradient and Hessian product; the subset sensitivity as OSMAPOSL "
+              "divides by it), set_up again, set_num_subsets + set_up, and model changes on the same "
+              "object (other normalisation, additive term on/off, zero_seg0_end_planes, max_segment_num_to_process, TOF range, other measured "
+              "data) + set_up.  Every answer is compared "
               "with the expression evaluated in double precision on the explicit system matrix, bitwise with the answer of a fresh object "
               "whose FIRST request it is, and bitwise with earlier answers to the same request.  omp part: value, gradients, sensitivity "
               "and Hessian products in a drawn order with 2..16 simulated threads vs one thread.  Non-trivial = >= 2 operations (seq) or "
